@@ -53,3 +53,38 @@
 ; position alias used in contracts (keeps the unfolding chain of cntSel from re-triggering invariants)
 (declare-fun selPos (Heap (Array Int Val) Int Int) Int)
 (assert (forall ((h Heap) (A (Array Int Val)) (K Int) (i Int)) (! (= (selPos h A K i) (cntSel h A K i)) :pattern ((selPos h A K i)))))
+
+; ---------------------------------------------------------------------------
+; C18: reference folds (left folds in index order), one-step unfoldings.
+; ---------------------------------------------------------------------------
+(declare-fun foldSumI ((Array Int Val) Int) Int)
+(assert (forall ((A (Array Int Val)) (i Int)) (! (=> (<= i 0) (= (foldSumI A i) 0)) :pattern ((foldSumI A i)))))
+(assert (forall ((A (Array Int Val)) (i Int)) (! (=> (> i 0) (= (foldSumI A i)
+   (ite ((_ is WInt) (select A (- i 1))) (wrap64 (+ (foldSumI A (- i 1)) (wint (select A (- i 1))))) (foldSumI A (- i 1)))))
+   :pattern ((foldSumI A i)))))
+(declare-fun foldProdI ((Array Int Val) Int) Int)
+(assert (forall ((A (Array Int Val)) (i Int)) (! (=> (<= i 0) (= (foldProdI A i) 1)) :pattern ((foldProdI A i)))))
+(assert (forall ((A (Array Int Val)) (i Int)) (! (=> (> i 0) (= (foldProdI A i)
+   (ite ((_ is WInt) (select A (- i 1))) (wmul (foldProdI A (- i 1)) (wint (select A (- i 1)))) (foldProdI A (- i 1)))))
+   :pattern ((foldProdI A i)))))
+(declare-fun foldSumF ((Array Int Val) Int) F64)
+(assert (forall ((A (Array Int Val)) (i Int)) (! (=> (<= i 0) (= (foldSumF A i) (i2f 0))) :pattern ((foldSumF A i)))))
+(assert (forall ((A (Array Int Val)) (i Int)) (! (=> (> i 0) (= (foldSumF A i)
+   (ite ((_ is WInt) (select A (- i 1))) (fadd (foldSumF A (- i 1)) (i2f (wint (select A (- i 1)))))
+   (ite ((_ is WFloat) (select A (- i 1))) (fadd (foldSumF A (- i 1)) (wfloat (select A (- i 1)))) (foldSumF A (- i 1))))))
+   :pattern ((foldSumF A i)))))
+(declare-fun foldProdF ((Array Int Val) Int) F64)
+(assert (forall ((A (Array Int Val)) (i Int)) (! (=> (<= i 0) (= (foldProdF A i) (i2f 1))) :pattern ((foldProdF A i)))))
+(assert (forall ((A (Array Int Val)) (i Int)) (! (=> (> i 0) (= (foldProdF A i)
+   (ite ((_ is WInt) (select A (- i 1))) (fmul (foldProdF A (- i 1)) (i2f (wint (select A (- i 1)))))
+   (ite ((_ is WFloat) (select A (- i 1))) (fmul (foldProdF A (- i 1)) (wfloat (select A (- i 1)))) (foldProdF A (- i 1))))))
+   :pattern ((foldProdF A i)))))
+
+; invariant parameter of the Reduce* contracts (uninterpreted: the callee's proof holds for every
+; interpretation; a caller fixes one with a `define` clause)
+(declare-fun RInv (Val Int) Bool)
+; trusted lemma (induction over n): a positive count has a witness
+(assert (forall ((A (Array Int Val)) (K Int) (n Int)) (!
+  (=> (> (cntK A K n) 0) (exists ((j Int)) (and (<= 0 j) (< j n) (= (kindOf (select A j)) K))))
+  :pattern ((cntK A K n)))))
+(define-fun ile ((a Int) (b Int)) Bool (<= a b))
